@@ -1206,6 +1206,9 @@ pub unsafe extern "C" fn pthread_join(th: libc::pthread_t, ret: *mut *mut c_void
             let op = Op::Join { task: t };
             sched::point(op);
             sched::step_done(op, 0);
+            let r = real(th, ret);
+            sched::forget_pthread(t);
+            return r;
         }
     }
     real(th, ret)
